@@ -114,8 +114,10 @@ def gen_force_opts(rng, labels, span):
         o["minPos"] = mn
     base = 0 if mn == "omit" else (mn if mn is not None else 0)
     need = sum(w for _, w in labels) + o.get("nodeSpacing", 3) * (len(labels) - 1)
-    mx = rng.choice(["omit", None, "span", "need", "need/2", "need/3", "need/6", "tight", "fit-density"])
-    if mx == "span":
+    mx = rng.choice(["omit", None, "span", "need", "need/2", "need/3", "need/6", "tight", "fit-density"] + (["zero"] if rng.random() < 0.25 else []))
+    if mx == "zero":            # both bounds equal: a layer of width 0 (treated as "no layer width": everything in one layer, all of it spills)
+        o["maxPos"] = base
+    elif mx == "span":
         o["maxPos"] = base + span
     elif mx == "need":
         o["maxPos"] = base + need
